@@ -140,6 +140,8 @@ DNext == \/ /\ defect = "none" /\ N < NSlots
                   /\ (d \in {"unclosed_text", "unclosed_triple"} => tail = "eof")
                   \* an unterminated quoted string runs to the end of its line: a comment tail on that line would belong to it
                   /\ ((d \in {"missing_endquote", "missing_endquote_dq"} /\ q = N) => tail \in {"eof", "eol", "cmteol"})
+                  \* a line of exactly the maximum length stays one only if the tail does not lengthen it
+                  /\ ((d = "maxlength" /\ q = N) => tail \in {"eof", "eol", "cmteol"})
                   \* a fragment ending in an open construct at the very end of input needs no follower; one that must be
                   \* followed by a non-value is always followed by a data name, a header or the end of input here
                   /\ defect' = d /\ pos' = q
